@@ -27,7 +27,13 @@ fn main() {
             c23::run(&ctx)
         }
         "C24" => c24::run(&ctx),
-        "C25" => c25::run(&ctx),
+        "C25" => {
+            if let Some(i) = args.extra.iter().position(|a| a == "--partb-child") {
+                let from = args.extra.get(i + 1).and_then(|x| x.parse().ok()).unwrap_or(0);
+                std::process::exit(c25::part_b_child(&ctx, from));
+            }
+            c25::run(&ctx)
+        }
         "C26" => c26::run(&ctx),
         "C27" => c27::run(&ctx),
         other => {
